@@ -128,6 +128,16 @@ def token_lines(path, cwd=None):
     return (rc == 0 and not err.strip()), lines, err
 
 
+def open_at_end(defines, text, workdir, name="selfcontained.c"):
+    """True iff the text, as the LAST line of a file, leaves a macro invocation open (gcc: 'unterminated argument list
+    invoking macro'): such a probe is not self-contained -- what it expands to depends on what follows it."""
+    path = os.path.join(workdir, name)
+    with open(path, "w") as f:
+        f.write("\n".join(list(defines) + [text]) + "\n")
+    rc, out, err = run(BASE + ["-P", "-fno-diagnostics-show-caret", path], cwd=workdir, timeout=60)
+    return "unterminated argument list" in err
+
+
 def expand_texts(cases, workdir, name="expand.c"):
     """cases: list of (defines=[ '#define ...' lines ], text). One gcc run; returns list of (expanded text|None, diag)."""
     lines = []
@@ -142,6 +152,9 @@ def expand_texts(cases, workdir, name="expand.c"):
                 names.append(m.group(1))
         lines.append(f"cbi_m_s{i} {text}")
         lines.append(f"cbi_m_t{i}")
+        # an invocation left open by this case (unbalanced parenthesis in a macro body) would swallow every later case
+        # of the batch: close it here, so that only this case loses its end marker
+        lines.append(") ) ) ) ) ) ) ) ) ) ) ) ) ) ) ) ) ) ) ) ) ) ) ) ) ) ) ) ) ) ) ) ) ) ) ) ) ) ) )")
         for n in dict.fromkeys(names):
             lines.append(f"#undef {n}")
         for ln in range(start, len(lines) + 1):
@@ -163,9 +176,13 @@ def expand_texts(cases, workdir, name="expand.c"):
         if i in diag:
             res.append((None, diag[i]))
             continue
-        m = re.search(r"cbi_m_s%d\b(.*?)cbi_m_t%d\b" % (i, i), out, re.S)
+        m = re.search(r"cbi_m_s%d\b(.*?)cbi_m_t%d\b(.*?)(?=cbi_m_s%d\b|\Z)" % (i, i, i + 1), out, re.S)
         if not m:
             res.append((None, "markers lost (unterminated invocation swallowed the end marker)"))
+        elif m.group(2).count(")") != 40 or m.group(2).replace(")", "").strip():
+            # some of the closing parentheses of the guard line were consumed (or other text leaked out): the case left
+            # an invocation open at its end, i.e. it is not self-contained
+            res.append((None, "invocation still open at the end of the text"))
         else:
             res.append((m.group(1), None))
     return res
